@@ -290,6 +290,15 @@ def _c16_common_head(rec):
                 a = a.body[0]
             if ast.dump(a) == ast.dump(b):
                 return True
+    # the implicit form: `if test(): X` directly followed by X (what follows the if is its else branch when the body cannot be left)
+    for parent in ast.walk(tree):
+        for field in ("body", "orelse", "finalbody"):
+            body = getattr(parent, field, None)
+            if not isinstance(body, list):
+                continue
+            for st, nxt in zip(body, body[1:]):
+                if isinstance(st, ast.If) and not st.orelse and st.body and any(isinstance(n, ast.Call) for n in ast.walk(st.test)) and ast.dump(st.body[0]) == ast.dump(nxt):
+                    return True
     return False
 
 
